@@ -749,3 +749,24 @@ def check(case, ctx):
     if part == "detect":
         return _part_detect(case, ctx)
     raise AssertionError("unknown part %r" % part)
+
+
+# ----------------------------------------------------------------------------
+# every direct library call made by this check must leave the arrays handed
+# to it unchanged (core.GuardedCalls)
+# ----------------------------------------------------------------------------
+def _guard_targets():
+    from pyphysim.modulators import fundamental as f
+    t = []
+    for cls in (f.Modulator, f.BPSK, f.PSK, f.QPSK, f.QAM):
+        t += [(cls, n) for n in ("modulate", "demodulate")]
+    return t
+
+
+_unguarded_check = check
+
+
+def check(case, ctx):  # noqa: F811
+    from ..core import GuardedCalls
+    with GuardedCalls(_guard_targets(), dict(part=case.get("part"))):
+        return _unguarded_check(case, ctx)
